@@ -25,6 +25,26 @@ def run(cmd, **kw):
     return subprocess.run(cmd, stdout=subprocess.PIPE, stderr=subprocess.STDOUT, text=True, **kw)
 
 
+def _keep_regressions(prop, tag, limit=2):
+    """Replay files written while the check ran against the broken tree become part of the seconds-long regression
+    tier (replays/<prop>/*.json, executed first by every quick run) if they HOLD on /repo itself."""
+    kept = []
+    found = sorted(glob.glob(os.path.join(V, 'replays', prop, 'found', '*.json')), key=os.path.getsize)
+    for path in found:
+        if len(kept) >= limit:
+            break
+        rep = json.load(open(path))
+        if rep.get('bucket', '').startswith('probe:') or 'probe' in (rep.get('case') or {}):
+            continue
+        c = run([os.path.join(V, 'check'), prop, '--replay', path], cwd=V)
+        if c.returncode == 0:
+            dst = os.path.join(V, 'replays', prop, 'reg_%s_%d.json' % (tag, len(kept)))
+            rep['origin'] = tag
+            json.dump(rep, open(dst, 'w'), indent=1, sort_keys=True, default=str)
+            kept.append(os.path.basename(dst))
+    return kept
+
+
 def main():
     args = [a for a in sys.argv[1:] if not a.startswith('--')]
     thorough = '--thorough' in sys.argv
@@ -71,6 +91,9 @@ def main():
                     viol = sorted(set(re.findall(r'^violation bucket=(\S+)', c.stdout, flags=re.M)))
                     ver['check_%s' % tier] = {'exit': c.returncode, 'buckets': [v.rstrip(':') for v in viol][:8],
                                               'seconds': round(time.time() - t0, 1)}
+                    kept = _keep_regressions(prop, 'seeded_' + name)
+                    if kept:
+                        ver['regression_replays'] = kept
                     shutil.rmtree(os.path.join(V, 'replays', prop, 'found'), ignore_errors=True)
                     if c.returncode == 1:
                         break
